@@ -369,8 +369,106 @@ def validate_units(rng, n, res):
     res.extra.setdefault("translation_validation", {}).update(stats)
 
 
+def validate_lifecycle(res):
+    """the status automaton, exhaustively: every status x every hook behaviour (leave the status alone / set any
+    status), on the real `Component` methods, `Composition._check_status`, `Composition.__init__` (sites `created`,
+    `initialize`) and `Composition._finalize_components` (site `finalize`), against the translated definitions"""
+    from finam.interfaces import ComponentStatus as CS
+    import finam.schedule as sched
+    names = ["Component_initialize", "Component_connect", "Component_validate", "Component_update", "Component_finalize",
+             "check_status", "site_created", "site_initialize", "site_finalize"]
+    if not all(common.TRANSLATION_STATUS.get(f, {}).get("translated") for f in names):
+        return
+
+    class Stub(fm.Component):
+        def __init__(self, hook):
+            super().__init__()
+            self.hook = hook
+
+        def _do(self):
+            if self.hook is not None:
+                self.status = CS(self.hook)
+
+        def _initialize(self):
+            self._do()
+
+        def _connect(self, start_time):
+            self._do()
+
+        def _validate(self):
+            self._do()
+
+        def _update(self):
+            self._do()
+
+        def _finalize(self):
+            self._do()
+
+    def outcome(f, c):
+        try:
+            f()
+            return {"ok": c.status.value}
+        except Exception as e:  # noqa
+            return {"err": err_class(e), "msg": f"{type(e).__name__}: {str(e)[:100]}"}
+
+    reqs, reals = [], []
+    lists = [[0], [1], [2, 3, 4], [5], [5, 6], [5, 6, 7], [8], [], [9, 0]]
+    for st in range(10):
+        for hook in [None] + list(range(10)):
+            for meth in ("initialize", "connect", "validate", "update", "finalize"):
+                c = Stub(hook)
+                c.status = CS(st)
+                reqs.append({"fn": "Component_" + meth, "args": [st, hook]})
+                reals.append(outcome((lambda c=c, meth=meth: getattr(c, meth)(EPOCH) if meth == "connect" else getattr(c, meth)()), c))
+            # Composition.__init__ : check CREATED, initialize, check INITIALIZED
+            c = Stub(hook)
+            c.status = CS(st)
+            r = outcome(lambda c=c: fm.Composition([c]), c)
+            reqs.append({"fn": "site_created", "args": [st]})
+            reqs.append({"fn": "site_initialize", "args": [st, hook]})
+            reals.append(("init", r))
+            reals.append(None)
+            # Composition._finalize_components on a composition whose component is in status st
+            c = Stub(None)
+            comp = fm.Composition([c])
+            c.hook = hook
+            c.status = CS(st)
+            reqs.append({"fn": "site_finalize", "args": [st, hook]})
+            reals.append(outcome(comp._finalize_components, c))
+        c = Stub(None)
+        comp = fm.Composition([c])
+        for dl in lists:
+            c.status = CS(st)
+            reqs.append({"fn": "check_status", "args": [dl, st]})
+            r = outcome(lambda dl=dl: comp._check_status(c, [CS(x) for x in dl]), c)
+            reals.append({"ok": []} if "ok" in r else r)
+    lean = _trdriver(reqs)
+    stats = {"cases": 0, "mismatch": 0, "errors": 0}
+    i = 0
+    while i < len(reqs):
+        rq, real = reqs[i], reals[i]
+        if isinstance(real, tuple):     # the two sites of __init__ in sequence
+            a, b = lean[i], lean[i + 1]
+            lv = a if "err" in a else b
+            real = real[1]
+            step = 2
+        else:
+            lv, step = lean[i], 1
+        stats["cases"] += 1
+        stats["errors"] += "err" in real
+        agree = (real.get("err") == lv.get("err")) if ("err" in real or "err" in lv) else (
+            lv["ok"] == real["ok"] or (real["ok"] == [] and lv["ok"] in ([], None)))
+        if not agree:
+            stats["mismatch"] += 1
+            res.diverge("translation/" + rq["fn"], {"fn": rq["fn"], "args": rq["args"]}, real, lv)
+        i += step
+    res.extra["translation_validation_lifecycle"] = stats
+
+
 def validate(prop, rng, n_per_fn, res):
     """runs the validation for the translated functions owned by `prop`; divergences go to `res`"""
+    if prop == "C03" and os.path.exists(TRDRIVER):
+        validate_lifecycle(res)
     if prop == "C17" and os.path.exists(TRDRIVER):
         validate_units(rng, n_per_fn, res)
     owned = {sp["lean"] for sp in trspecs.SPECS if prop in sp["props"]}
